@@ -6,7 +6,7 @@
     in code that is not modelled, and the Go runtime's reaction to a race are outside the LTSs. *)
 From Coq Require Import List Arith Bool NArith.
 Import ListNotations.
-Require Import MS.Model.RWRace MS.Proofs.RWRace_facts MS.Model.WalLoop MS.Model.WalLoopHB.
+Require Import MS.Model.RWRace MS.Proofs.RWRace_facts MS.Model.WalLoop MS.Model.WalLoopHB MS.Proofs.WalLoopHB_facts.
 
 (** (a) read-committed, full statement for the variable-length file: under every interleaving every
     finished read is error-free and equals a committed version of its slot. *)
@@ -55,37 +55,41 @@ Theorem C18_fixed_read_committed : forall comp n vw fw rd ls s snap i v,
 Proof. exact fixed_reads_committed. Qed.
 Print Assumptions C18_fixed_read_committed.
 
-(** (b) race freedom of the flush protocol's shared variables, full statement: no accepted schedule
-    has two conflicting unordered accesses. *)
-Definition C18_race_free : Prop := forall ks cw cf ls s,
+(** (b) race freedom of the flush protocol's shared variables: no accepted schedule has two conflicting
+    unordered accesses.  At the original HEAD this clause was refuted (F18: plain variables, no
+    synchronisation edge).  /repo now carries the fix (known_findings.txt `fixed:` line): every access to
+    haveWALWriter and *shutdownPending is a critical section of the RWMutex walFlagsMu; the happens-before
+    relation of Model/WalLoopHB.v has the corresponding edge and the clause is a theorem for EVERY schedule. *)
+Theorem C18_race_free : forall ks cw cf ls s,
   WalLoop.run_labels (WalLoop.init ks cw cf) ls = Some s ->
-  races have_access (length ks) ls = [] /\ races shut_access (length ks) ls = [].
+  races true have_access (length ks) ls = [] /\ races true shut_access (length ks) ls = [].
+Proof. intros. apply flags_race_free. Qed.
+Print Assumptions C18_race_free.
 
-(** F18: the loop goroutine sets haveWALWriter, a writer reads it; there is no channel operation between
-    them at all.  Likewise Shutdown's write of *shutdownPending against the loop's read. *)
+(** Regression of F18: under the happens-before relation of the code BEFORE the fix ([mutexed = false]:
+    channels and program order only) the same schedules have unordered conflicting accesses — the loop
+    goroutine sets haveWALWriter and a writer reads it with no channel operation between them; likewise
+    Shutdown's write of *shutdownPending against the loop's read. *)
 Definition C18_race_witness : list WalLoop.label := [LStart; Enq 0; RdHave 0 true].
 Definition C18_race_witness_shutdown : list WalLoop.label :=
   [LStart; Enq 0; RdHave 0 true; SendTok 0; LRecv; LFl; LFl; LFl; LFl; EnvShut; LAckL; LShut].
-
-Theorem C18_race_free_refuted : ~ C18_race_free.
-Proof.
-  intros H. destruct (H [1] 10%N 10%N C18_race_witness _ eq_refl) as [H1 _]. vm_compute in H1. discriminate H1.
-Qed.
-Print Assumptions C18_race_free_refuted.
-
-Example C18_races_found :
-  races have_access 1 C18_race_witness = [(0, 2)]
+Example C18_race_before_fix :
+  races false have_access 1 C18_race_witness = [(0, 2)]
   /\ (exists s, WalLoop.run_labels (WalLoop.init [1] 10%N 10%N) C18_race_witness_shutdown = Some s)
-  /\ races shut_access 1 C18_race_witness_shutdown = [(9, 10); (9, 11)].
-Proof. split; [vm_compute; reflexivity|]. split; [eexists; vm_compute; reflexivity|]. vm_compute. reflexivity. Qed.
+  /\ races false shut_access 1 C18_race_witness_shutdown = [(9, 10); (9, 11)]
+  /\ races true have_access 1 C18_race_witness = []
+  /\ races true shut_access 1 C18_race_witness_shutdown = [].
+Proof. repeat split; try (vm_compute; reflexivity). eexists; vm_compute; reflexivity. Qed.
 
-(** ordered accesses are not reported: a writer's SECOND request reads haveWALWriter after its first
-    request's acknowledgement, which orders it after LStart (modelled as the same goroutine id). *)
+(** the pre-fix relation does not report ordered accesses either: a writer's SECOND request reads
+    haveWALWriter after its first request's acknowledgement, which orders it after LStart. *)
 Example C18_no_false_race :
-  races have_access 2 [LStart; Enq 0; RdHave 0 true; SendTok 0; LRecv; LFl; LFl; LFl; LFl; LAckL] = [(0, 2)].
+  races false have_access 2 [LStart; Enq 0; RdHave 0 true; SendTok 0; LRecv; LFl; LFl; LFl; LFl; LAckL] = [(0, 2)].
 Proof. vm_compute. reflexivity. Qed.
 
-Definition C18_full : Prop := C18_read_committed /\ C18_race_free.
+Definition C18_full : Prop := C18_read_committed /\
+  (forall ks cw cf ls s, WalLoop.run_labels (WalLoop.init ks cw cf) ls = Some s ->
+     races true have_access (length ks) ls = [] /\ races true shut_access (length ks) ls = []).
 Theorem C18_refuted : ~ C18_full.
 Proof. intros [H _]. exact (C18_read_committed_refuted H). Qed.
 Print Assumptions C18_refuted.
